@@ -1,10 +1,11 @@
 import Rtcm.Lemmas.Chunk
+import Rtcm.Lemmas.ChunkTerm
 /-
   C12 — chunked transfer decoding is independent of segmentation.
   `dec` is the per-chunk transform (identity, gzip, zlib or raw deflate — the theorem holds for
   every function, the real zlib is exercised by the correspondence run).
-  PARTIAL: the optional terminating zero chunk `0 CRLF CRLF` after the body is covered by the
-  correspondence run (exhaustive partitions of small bodies with and without it), not by the theorem.
+  Both stream forms of the property are covered: without the terminating zero chunk
+  (`C12_segmentation_independent`) and with it (`C12_with_terminator`).
 -/
 namespace Rtcm
 
@@ -43,6 +44,27 @@ theorem C12_prefix_then_rest (dec : Bytes → Bytes) (cs : List (Bytes × Bytes)
   have h1 := C12_segmentation_independent dec cs hok [a ++ b] (by simpa using h)
   simp only [List.foldl_cons, List.foldl_nil] at h1 h2
   rw [h1, h2]
+
+/-- **With the terminating zero chunk.**  The stream is a well-formed chunked body followed by
+    the last-chunk marker `z CRLF CRLF` (`z` any spelling of zero: "0", "000", …).  For every way of
+    cutting it into receive results — also inside the marker — the buffer ends up holding exactly
+    the concatenation of the decoded chunk bodies.  (A receive boundary inside the final CRLF can
+    leave a lone LF as `partial`; it is never delivered.) -/
+theorem C12_with_terminator (dec : Bytes → Bytes) (cs : List (Bytes × Bytes))
+    (hok : ∀ hc ∈ cs, ChunkOK hc) (z : Bytes) (hz : SizeLine z 0) (segs : List Bytes)
+    (hcat : segs.flatten = body cs ++ z ++ CRLF ++ CRLF) :
+    (segs.foldl (feedSeg dec) ([], [])).2 = decAll dec cs :=
+  feed_with_terminator dec cs hok z hz segs (by simpa [termBytes, List.append_assoc] using hcat)
+
+/-- with or without the marker, and however each of the two streams is cut, the same bytes are delivered -/
+theorem C12_terminator_irrelevant (dec : Bytes → Bytes) (cs : List (Bytes × Bytes))
+    (hok : ∀ hc ∈ cs, ChunkOK hc) (z : Bytes) (hz : SizeLine z 0) (segs₁ segs₂ : List Bytes)
+    (h₁ : segs₁.flatten = body cs) (h₂ : segs₂.flatten = body cs ++ z ++ CRLF ++ CRLF) :
+    (segs₁.foldl (feedSeg dec) ([], [])).2 = (segs₂.foldl (feedSeg dec) ([], [])).2 := by
+  rw [C12_segmentation_independent dec cs hok segs₁ h₁, C12_with_terminator dec cs hok z hz segs₂ h₂]
+
+example : SizeLine [48] 0 := ⟨by decide, by decide⟩                       -- "0"
+example : SizeLine [48, 48, 48] 0 := ⟨by decide, by decide⟩               -- "000"
 
 /-! non-vacuity: size lines as Python reads them (upper / lower case, leading zeros) -/
 example : SizeLine [53] 5 := ⟨by decide, by decide⟩                       -- "5"
